@@ -49,10 +49,16 @@ func toInt(d *internal.Decimal) *big.Int {
 //	Floor(±Inf) = ±Inf
 //	Floor(NaN) = NaN
 func Floor(x *internal.Decimal) (*big.Int, error) {
+	// Truncate, which is exact for any number of digits, and step down
+	// for a negative number with a fraction.
 	var d internal.Decimal
-	_, err := internal.BaseContext.Floor(&d, x)
-	_, _ = internal.BaseContext.Quantize(&d, &d, 0)
-	return toInt(&d), err
+	_, err := roundTruncContext.RoundToIntegralExact(&d, x)
+	stepDown := x.Form == apd.Finite && x.Negative && d.Cmp(x) != 0
+	i := toInt(&d)
+	if stepDown {
+		i.Sub(i, big.NewInt(1))
+	}
+	return i, err
 }
 
 // Ceil returns the least integer value greater than or equal to x.
@@ -63,10 +69,16 @@ func Floor(x *internal.Decimal) (*big.Int, error) {
 //	Ceil(±Inf) = ±Inf
 //	Ceil(NaN) = NaN
 func Ceil(x *internal.Decimal) (*big.Int, error) {
+	// Truncate, which is exact for any number of digits, and step up
+	// for a positive number with a fraction.
 	var d internal.Decimal
-	_, err := internal.BaseContext.Ceil(&d, x)
-	_, _ = internal.BaseContext.Quantize(&d, &d, 0)
-	return toInt(&d), err
+	_, err := roundTruncContext.RoundToIntegralExact(&d, x)
+	stepUp := x.Form == apd.Finite && !x.Negative && d.Cmp(x) != 0
+	i := toInt(&d)
+	if stepUp {
+		i.Add(i, big.NewInt(1))
+	}
+	return i, err
 }
 
 var roundTruncContext = roundContext(apd.RoundDown)
